@@ -301,6 +301,10 @@ def helper_positions(repo, c, hname, slots):
 
 
 def run(repo, rep, tier):
+    # these rules reason with helper calls as atoms (the same call = the same value; "reaches the routing function"), so they read the
+    # sources WITHOUT helper inlining; the shared rules of C06 run on the inlined view
+    inlined_repo = repo
+    repo = repo.plain()
     rep.extra["explanation"] = (
         "Narrow structural part of the accessor contract: (R13.1) every `self.x` read in the primitives, their specialised "
         "subclasses and the plotting mixins resolves in each composed class; (R13.2) num_bins/bin_entries/bin_edges/"
@@ -365,7 +369,7 @@ def run(repo, rep, tier):
                             f"differ from the bin fill puts x into", stmt=f"{an}: routing not shared")
     # ---------------- R13.6: an index computed from the query goes through one of the class's own index methods
     # views are read accessors: they neither modify the histogram nor hand out objects that share its counters
-    rep.borrow(repo, "C06", {"R6.1": ("R13.7", "derived views (accessors, grids, projections) have no store effect on the histogram", 250),
+    rep.borrow(inlined_repo, "C06", {"R6.1": ("R13.7", "derived views (accessors, grids, projections) have no store effect on the histogram", 250),
                              "R6.2": ("R13.8", "projections are built from fresh counters", 40)},
                keep=lambda f: f.file.startswith("histogrammar/plot/") or any(x in f.construct for x in (".bin_", ".num_bins", ".mpv", ".range", ".project", ".xy_", ".x_lim", ".y_lim")))
     r6 = rep.rule("R13.6", "children are looked up by an index obtained from the class's own index methods, never from inline arithmetic on the query", floor=6)
@@ -647,7 +651,8 @@ def run(repo, rep, tier):
             for x in rets:
                 v = x.value
                 vals += [v.body, v.orelse] if isinstance(v, ast.IfExp) else [v]
-            has_none = any(isinstance(v, ast.Constant) and v.value is None for v in vals)
+            from ..canon import always_exits
+            has_none = any(isinstance(v, ast.Constant) and v.value is None for v in vals) or not always_exits(fn.node.body)
             has_num = any(isinstance(v, ast.Call) and isinstance(v.func, ast.Name) and v.func.id in ("min", "max", "int", "float", "len") or
                           isinstance(v, (ast.BinOp,)) for v in vals)
             if has_none and has_num:
